@@ -106,7 +106,7 @@ _P["C08"] = {
     "explanation": "Theorems C08_* (Properties/C08.v): the modelled packet decoders (Ethernet+VLAN, ARP, IPv4, IPv6 + extension headers, ICMP, UDP, TCP; Model/Proto2.v: IGMP v1/v2/v3, DHCP and its options, LLDP TLVs and header, 802.1Q tag, IPv6 option) "
                    "return a value or an error on every byte string - no panic, no fuel exhaustion (every loop consumes input: extension-header chain, option walks, group records of a report); correspondence on truncations at every offset, "
                    "boundary bytes and mutations, each decode in a watchdog subprocess (time and heap limits).",
-    "trusted_base": _PKT_TRUSTED, "assumptions": ["time/memory proportionality of the implementation is measured (3 s, 1 GiB heap, allocations within 512 bytes per input byte + 256 KiB); the theorems bound the iterations of every loop of the model by the input length"],
+    "trusted_base": _PKT_TRUSTED, "assumptions": ["time/memory proportionality of the implementation is measured (3 s, 1 GiB heap, allocations within 512 bytes per input byte + 256 KiB, processor time within 30 us per input byte + 0.4 s); the theorems bound the iterations of every loop of the model by the input length"],
     "harness_timeout": {"quick": 900, "thorough": 3000},
 }
 _P["C09"] = {
